@@ -22,6 +22,9 @@ ASSUMPTIONS = [
     "a component group is the SET of component ids: every request carries its own set/frozenset object, built with ascending or "
     "descending insertion order over ids that collide in a small hash table (equal sets, different iteration order)",
     "requests are told apart by object identity (the harness maps id(request) to a sequence number); their VALUES may be equal",
+    "several PowerDistributingActor instances in one process (the `instances` stream) are independent machines: each is replayed "
+    "through its own copy of the model and judged by the oracle on its own trace; a stopped instance's in-flight distribution keeps "
+    "running (the service does not own it) and its completion callback still fires",
     "cancellation of a distribution task is outside the property's quantifier (task.result() would raise CancelledError "
     "out of the completion callback)",
 ]
@@ -29,7 +32,17 @@ ASSUMPTIONS = [
 
 class C14Stream(D.DistStream):
     def oracle(self, case, obs):
-        """The property judged on the recorded implementation trace only (no model)."""
+        """The property judged on the recorded implementation traces only (no model), per actor instance."""
+        subs = D.instances(obs)
+        issued_all = D.issued_by_instance(case, len(subs))
+        out = []
+        for k, sub in enumerate(subs):
+            pre = f"instance {k}: " if len(subs) > 1 else ""
+            for v in self._oracle_one(case, sub, issued_all[k]):
+                out.append({"what": v["what"].split(": ", 1)[0] + ": " + pre + v["what"].split(": ", 1)[1], "finding": None})
+        return out
+
+    def _oracle_one(self, case, obs, issued):
         out = []
         V = lambda what: out.append({"what": what, "finding": None})
         log = obs["log"]
@@ -96,13 +109,10 @@ class C14Stream(D.DistStream):
                   f"distribution had ended at t={last_exit.get(a[1])}us")
         # (4) quiescent at the end of the drain: for every group the request applied last is the one ISSUED last
         #     (issued = sent on the request channel, whether or not it ever reached the receive loop)
-        issued = {}
-        k = 0
-        for st_ in case["steps"]:
-            if st_[0] == "req":
-                k += 1
-                issued.setdefault(st_[1], []).append(k)
-        for g, infl, pend in obs["final"]:
+        if not obs.get("live", True):
+            # an instance that was stopped and replaced: what it had not consumed before the stop is outside the property
+            issued = {g: list(v) for g, v in arrived.items()}
+        for g, infl, pend, *_more in obs["final"]:
             if infl or pend is not None:
                 V(f"eventually: group {g} not quiescent after every distribution was released "
                   f"(in flight={infl}, pending={pend})")
@@ -112,7 +122,21 @@ class C14Stream(D.DistStream):
                   f"{started.get(g, [None])[-1]}" + (f" (requests {lost} of the group never reached the distributor)" if lost else ""))
         if not obs["alive"]:
             V("harness: the distributor actor is not running at the end of the schedule")
+        for x in obs["final"]:
+            if len(x) > 3:
+                V(f"exclusive: group {x[0]} has {x[3]} tasks in flight and {x[4]} pending requests registered at once")
         return out
+
+
+class C14MultiStream(C14Stream):
+    """Several PowerDistributingActor instances in one process (sequential replacement, side by side); same replay and
+    same oracle, per instance."""
+    name = "instances"
+
+    def gen(self, rng, tier):
+        yield from D.multi_boundary_cases()
+        for _ in range(400 if tier == "quick" else 6000):
+            yield D.gen_multi_case(rng)
 
 
 class C14WrapperStream(C14Stream):
@@ -122,7 +146,7 @@ class C14WrapperStream(C14Stream):
 
     def gen(self, rng, tier):
         yield from D.wrapper_boundary_cases()
-        for _ in range(500 if tier == "quick" else 6000):
+        for _ in range(400 if tier == "quick" else 6000):
             yield D.gen_wrapper_case(rng)
 
     def key(self, case, obs):
@@ -131,7 +155,7 @@ class C14WrapperStream(C14Stream):
 
 
 def streams():
-    return [C14Stream(), C14WrapperStream()]
+    return [C14Stream(), C14WrapperStream(), C14MultiStream()]
 
 
 META = {
